@@ -13,6 +13,7 @@ import subprocess
 import sys
 from concurrent.futures import ThreadPoolExecutor
 
+from . import common
 from .common import ROOT, WORK, Check
 
 # property module -> (Lean modules, noOOB / index-range theorems)
@@ -40,7 +41,8 @@ def check(ck: Check) -> None:
                "processes (own numba cache); a case is one case of those streams; counts are summed over the sub-runs")
     ck.assumptions += ["NUMBA_BOUNDSCHECK=1 only adds IndexError to the compiled kernels (numba documentation)",
                        "kernels are compiled per process from the current source (own cache dir .work/numba-bc)"]
-    ck.not_proved += ["min-ANN controllers: index safety by the bounds-checked streams only (their loops are float-controlled)",
+    ck.not_proved += ["min-ANN controllers: the search loops are float-controlled and not modelled; their (all literal) array "
+                      "accesses are extracted from the source on every run and proved in range (C13.minAnn_indices_in_range)",
                       "kernels of properties whose checks are not integrated yet are listed in MANIFEST notes"]
     modules, theorems = [], []
     for p, (mods, ths) in sorted(KERNELS.items()):
@@ -52,10 +54,23 @@ def check(ck: Check) -> None:
         c16.meta(ck)
     except Exception as e:  # noqa: BLE001 - an untranslatable kernel is reported by ./check C16; here it is a proof failure
         ck.proof_failures.append(f"translator (lean/Gen) could not be regenerated: {e!r}")
+    # the literal subscripts of the min-ANN kernels and their registered dimensions -> lean/Gen/MinAnnIdx.lean
+    try:
+        from .translate import minann_idx
+        data = minann_idx.emit(common.REPO, common.LEAN)
+        ck.count("minann_kernels", len(data["registrations"]))
+        modules.append("Props.C13")
+        theorems.append("C13.minAnn_indices_in_range")
+    except Exception as e:  # noqa: BLE001
+        ck.proof_failures.append(f"min-ANN index extraction (harness/translate/minann_idx.py) failed: {e!r}")
     drvs = [f"drv_{p.lower()}" for p in KERNELS] + EXTRA_BUILD
     ck.drv = drvs[0]
     ck.drv_root = "Driver.C01Main"
     ck.lean(modules, theorems, build_extra=drvs[1:])
+    if "Props.C13" in modules:   # informational shape facts: a failure is a note, never a violation (see Props/C13Shape.lean)
+        r = subprocess.run(["lake", "build", "Props.C13Shape"], cwd=common.LEAN, capture_output=True, text=True, check=False)
+        ck.notes.append("min-ANN shape facts (Props.C13Shape: parameters exactly declared, slices state-sized): "
+                        + ("hold" if r.returncode == 0 else "DO NOT hold on this tree (informational; not a C13 violation)"))
     outdir = WORK / "C13"
     outdir.mkdir(parents=True, exist_ok=True)
     env = dict(os.environ, NUMBA_BOUNDSCHECK="1")
